@@ -37,7 +37,8 @@ def inline_pred(name):
 
 
 def _work(job):
-    (idx, owner, scanner, start, path, marker) = job
+    (idx, owner, scanner, start, path, marker) = job[:6]
+    param = job[6] if len(job) > 6 else False
     bodies, pts = _G['bodies'], _G['pts']
     rfc, prod = lang.TYPE_TABLE[owner]
     markers = [marker + '+', marker + '-']
@@ -51,12 +52,12 @@ def _work(job):
             args = [('self',)]
         else:
             args = [('slice',), ('idx', start)]
-        m = scan.Machine(bodies, sp, [(markers[0], markers[1], list(path))], scanner, args, inline_pred)
+        m = scan.Machine(bodies, sp, [(markers[0], markers[1], list(path))], scanner, args, inline_pred, param_start=param)
         raw = m.run()
         retried = False
         if any(f[0] == 'unsupported' and 're-scan' in f[1] for f in raw):
             # the scanner re-reads a position it remembered: track the content of every referenced position
-            m = scan.Machine(bodies, sp, [(markers[0], markers[1], list(path))], scanner, args, inline_pred, track_all=True)
+            m = scan.Machine(bodies, sp, [(markers[0], markers[1], list(path))], scanner, args, inline_pred, track_all=True, param_start=param)
             raw = m.run()
             retried = True
         out = []
@@ -91,7 +92,8 @@ def run(P, obligations, jobs=None):
     work = [(i,) + tuple(o) for i, o in enumerate(obligations)]
     # precompute specs once (cached on disk) so workers only load them
     done = set()
-    for (_, owner, scanner, start, path, marker) in work:
+    for w_ in work:
+        (_, owner, scanner, start, path, marker) = w_[:6]
         k = (owner, marker)
         if k not in done:
             done.add(k)
